@@ -425,10 +425,43 @@ def c14_one(rec, case):
     return ok
 
 
+def c14_vend(rec, case):
+    """A table whose FIRST or LAST node is 0.55 micron, written directly in another length unit (5500 Angstrom, 550 nm):
+    the table covers V, so the pattern inside it is -0.4 chi/chi(V) with chi(V) the opacity of that end node.  (Queries
+    exactly at that end are left out: whether 0.55 micron converted to Angstrom is inside a table starting at 5500
+    Angstrom is decided by one ulp -- DESIGN.md 11 (4).)"""
+    from sedfitter.extinction import Extinction
+    c = unjson_floats(case)
+    rng = np.random.default_rng(c['pseed'])
+    n = c['n']
+    unit, v = {'AA': (u.AA, 5500.), 'nm': (u.nm, 550.), 'm': (u.m, 5.5e-7)}[c['wav_unit']]
+    if c['end'] == 'first':
+        wav = v * np.concatenate([[1.], np.cumprod(1. + rng.uniform(0.05, 0.6, n - 1))])
+    else:
+        wav = v / np.concatenate([[1.], np.cumprod(1. + rng.uniform(0.05, 0.6, n - 1))])[::-1]
+    chi = 10. ** rng.uniform(0, 3, n)
+    e = Extinction()
+    e.wav = wav * unit
+    e.chi = chi * u.cm ** 2 / u.g
+    chi_v = chi[0] if c['end'] == 'first' else chi[-1]
+    q = np.concatenate([wav[1:-1], rng.uniform(wav[0] * 1.001, wav[-1] * 0.999, 4)]) if n > 2 else rng.uniform(wav[0] * 1.001, wav[-1] * 0.999, 4)
+    try:
+        got = np.asarray(e.get_av(q * unit))
+        got_um = np.asarray(e.get_av((q * unit).to(u.micron)))
+    except Exception as ex:
+        rec.fail('extinction_crash', 'raised %s: %s' % (type(ex).__name__, ex), case)
+        return False
+    exp = -0.4 * np.interp(q, wav, chi) / chi_v
+    ok = rec.expect(bool(np.all(np.isfinite(got))) and close(got, exp, 1e-8, 1e-12), 'pattern_v_at_table_end',
+                    'table in %s whose %s node is 0.55 micron: pattern inside the table is not -0.4 chi/chi(V) (got %s, expected %s)' % (c['wav_unit'], c['end'], got[:4], exp[:4]), case)
+    ok &= rec.expect(bool(np.all(np.isfinite(got_um))) and close(got_um, exp, 1e-8, 1e-12), 'pattern_v_at_table_end', 'the same with queries in micron', case)
+    return ok
+
+
 def run_c14(tier, seed):
     rec = Recorder('C14', 'tables with 2..200 rows, positive opacities, wavelengths in micron/Angstrom/cm/nm, opacities in cm2/g or m2/kg; queries on nodes '
                           '(incl. bit-equal end nodes), inside, outside, at V, in any length unit; chi re-assigned after an evaluation; pickle, table and '
-                          'text-file (column selections) round trips; distinct = (units, n)')
+                          'text-file (column selections) round trips; tables whose first/last node is 0.55 micron written in Angstrom/nm/m; distinct = (units, n)')
     rng = np.random.default_rng(seed + 14)
     n = 40 if tier == 'quick' else 1500
     wus, cus = ['micron', 'AA', 'cm', 'nm'], ['cgs', 'si']
@@ -438,6 +471,10 @@ def run_c14(tier, seed):
                     q_unit=wus[(t // 2) % 4], cols=colsel[t % 4], v_on_node=bool(t % 7 == 0))
         c14_one(rec, case)
         rec.case(key=(case['wav_unit'], case['chi_unit'], case['q_unit'], tuple(case['cols']), case['n'] > 5), nontrivial=True, sample=case if t < 2 else None)
+    for t in range(12 if tier == 'quick' else 300):
+        case = dict(seed=seed, tag='c14-vend', pseed=int(rng.integers(1, 10 ** 6)), n=int(rng.integers(2, 9)), wav_unit=['AA', 'nm', 'm'][t % 3], end=['first', 'last'][(t // 3) % 2])
+        c14_vend(rec, case)
+        rec.case(key=('v-at-end', case['wav_unit'], case['end']), nontrivial=True)
     return rec, REPLAY
 
 
@@ -720,6 +757,8 @@ def c19_file(rec, case):
                         pickle.load(fh)
                     except EOFError:
                         break
+                    except Exception:       # noqa  (a writer that puts something else than pickles between the frames:
+                        break               #        the boundaries found so far are used)
                     cuts.add(fh.tell())
             offsets = sorted(set(offsets) | set(b + e for b in cuts for e in (-1, 0, 1) if 0 <= b + e < len(data)))
         n_read = 0
@@ -763,7 +802,10 @@ def run_c19(tier, seed):
     for k in range(1, kmax + 1):
         for wf in (False, True):
             case = dict(seed=seed, tag='c19', pseed=int(rng.integers(1, 10 ** 6)), k=k, with_fluxes=wf)
-            c19_file(rec, case)
+            try:
+                c19_file(rec, case)
+            except Exception as e:      # noqa
+                rec.fail('c19_crash', 'writing / reading back a complete file raised %s: %s' % (type(e).__name__, e), case)
             rec.case(key=(k, wf), nontrivial=True, sample=case if k == 2 else None)
     # count offsets as evaluations
     rec.exhaustive = True
@@ -771,7 +813,10 @@ def run_c19(tier, seed):
     from sedfitter.fit_info import FitInfoFile
     # strided offsets for the big file (computed from its length inside the replay function: give explicit list)
     big['offsets'] = list(range(2000, 2600000, 1 if False else 65521))[:40 if tier == 'quick' else 400]
-    c19_file(rec, big)
+    try:
+        c19_file(rec, big)
+    except Exception as e:      # noqa
+        rec.fail('c19_crash', 'writing / reading back a complete file raised %s: %s' % (type(e).__name__, e), big)
     rec.case(key=('big', 70000), nontrivial=True)
     rec.evaluations += sum(int(x.split()[0]) for x in rec.notes if x.split()[0].isdigit())
     for i in range(max(2, rec.evaluations // 50)):
@@ -779,5 +824,5 @@ def run_c19(tier, seed):
     return rec, REPLAY
 
 
-REPLAY = {'c12-sed': c12_sed, 'c12-cube': c12_cube, 'c12-conv': c12_conv, 'c13-conv': c13_conv, 'c13-sed': c13_sed, 'c14': c14_one, 'c15': c15_one,
+REPLAY = {'c12-sed': c12_sed, 'c12-cube': c12_cube, 'c12-conv': c12_conv, 'c13-conv': c13_conv, 'c13-sed': c13_sed, 'c14': c14_one, 'c14-vend': c14_vend, 'c15': c15_one,
           'c20-layout': c20_layout, 'c20-roundtrip': c20_roundtrip, 'c19': c19_file}
